@@ -25,6 +25,7 @@ import (
 	"time"
 
 	iec "github.com/nspcc-dev/neofs-node/internal/ec"
+	clientcore "github.com/nspcc-dev/neofs-node/pkg/core/client"
 	blobcommon "github.com/nspcc-dev/neofs-node/pkg/local_object_storage/blobstor/common"
 	"github.com/nspcc-dev/neofs-node/pkg/local_object_storage/engine"
 	objcommon "github.com/nspcc-dev/neofs-node/pkg/services/object/common"
@@ -39,11 +40,13 @@ import (
 	"github.com/nspcc-dev/neofs-sdk-go/object"
 	oid "github.com/nspcc-dev/neofs-sdk-go/object/id"
 	"github.com/nspcc-dev/neofs-sdk-go/object/slicer"
+	iprotobuf "github.com/nspcc-dev/neofs-sdk-go/proto/protobuf"
 	protosession "github.com/nspcc-dev/neofs-sdk-go/proto/session"
 	sessionv2 "github.com/nspcc-dev/neofs-sdk-go/session/v2"
 	"github.com/nspcc-dev/neofs-sdk-go/user"
 	"github.com/nspcc-dev/neofs-sdk-go/version"
 	"go.uber.org/zap"
+	"google.golang.org/grpc/mem"
 	"verif/simkit"
 )
 
@@ -82,6 +85,7 @@ func (zzKeyStore) GetKeyBySubjects([]sessionv2.Target) (*ecdsa.PrivateKey, error
 // nodes and world
 
 type zzNode struct {
+	w    *zzWorld
 	idx  int
 	info netmap.NodeInfo
 	pub  []byte
@@ -131,6 +135,155 @@ type zzWorld struct {
 	hitDown   atomic.Bool
 	hitHang   atomic.Bool
 	remoteGet atomic.Int32
+	proxyTo   *zzNode // node the next proxied (top-level) request goes to
+	linkID    oid.ID  // link object of the stored split object (zero otherwise)
+	linkRead  atomic.Bool // some node served the link object during the current operation
+}
+
+// zzProxy models the object server's proxying of one top-level request to container nodes
+// (pkg/services/object get.go / range.go continueWithConn and the HEAD transport): response
+// messages of the remote node are passed to the client as they are -- the header once, payload
+// bytes beyond what was already passed on (a stream resumed on another node skips them), a
+// non-OK status other than "not found" ends the request with that status; "not found" and
+// transport failures make the service try the next node; split info goes back to the service.
+type zzProxy struct {
+	w            *zzWorld
+	col          *zzCollector // the client's response stream
+	suppressInit bool         // payload-only request: the header is not passed on
+	hdrDone      bool
+	sent         int   // payload bytes passed to the client so far
+	status       error // status the request was finished with by a remote node
+	headHdr      *object.Object
+}
+
+// finish replays what the remote handler produced (rc, err) as its message stream.
+func (px *zzProxy) finish(ctx context.Context, rc *zzCollector, err error, wantLen func(hdr *object.Object) (uint64, bool), needHdr bool) error {
+	if rc.hdrs > 0 && !px.hdrDone {
+		px.hdrDone = true
+		if !px.suppressInit {
+			_ = px.col.WriteHeader(rc.hdr)
+		}
+	}
+	if len(rc.data) > px.sent {
+		_ = px.col.WriteChunk(rc.data[px.sent:])
+		px.sent = len(rc.data)
+	}
+	if err != nil {
+		werr := zzWire(ctx, err)
+		var si *object.SplitInfoError
+		switch {
+		case errors.As(werr, &si):
+			return werr
+		case errors.Is(werr, apistatus.ErrObjectNotFound):
+			return apistatus.ErrObjectNotFound
+		case errors.Is(werr, apistatus.Error):
+			px.status = werr
+			return nil
+		}
+		return fmt.Errorf("reading the response failed: %w", werr)
+	}
+	// end of stream: the proxy checks that nothing is missing
+	if needHdr && rc.hdrs == 0 {
+		return io.ErrUnexpectedEOF
+	}
+	if want, ok := wantLen(rc.hdr); ok && uint64(px.sent) < want {
+		return io.ErrUnexpectedEOF
+	}
+	return nil
+}
+
+func (px *zzProxy) getFn(addr oid.Address, rng blobcommon.PayloadRange) GetTransportFunc {
+	return func(ctx context.Context, _ clientcore.MultiAddressClient) error {
+		to := px.w.proxyTo
+		if err := px.w.reach(ctx, to); err != nil {
+			return fmt.Errorf("stream opening failed: %w", err)
+		}
+		px.w.remoteGet.Add(1)
+		var p Prm
+		p.SetCommonParameters(zzCommon(1, nil))
+		p.WithAddress(addr)
+		p.WithContainer(px.w.cnr)
+		p.payloadRange = rng
+		rc := new(zzCollector)
+		p.SetObjectWriter(rc)
+		err := to.svc.Get(ctx, p)
+		return px.finish(ctx, rc, err, func(hdr *object.Object) (uint64, bool) {
+			if hdr == nil {
+				return 0, false
+			}
+			if rng.Mode == blobcommon.PayloadRangeModeOffsetLength && rng.Second > 0 {
+				return rng.Second, true
+			}
+			_, ln, rerr := rng.Resolve(hdr.PayloadSize())
+			return ln, rerr == nil
+		}, true)
+	}
+}
+
+func (px *zzProxy) rangeFn(addr oid.Address, off, ln uint64) RangeTransportFunc {
+	return func(ctx context.Context, _ clientcore.MultiAddressClient) error {
+		to := px.w.proxyTo
+		if err := px.w.reach(ctx, to); err != nil {
+			return fmt.Errorf("stream opening failed: %w", err)
+		}
+		px.w.remoteGet.Add(1)
+		var p RangePrm
+		p.SetCommonParameters(zzCommon(1, nil))
+		p.WithAddress(addr)
+		p.WithContainer(px.w.cnr)
+		rng := object.NewRange()
+		rng.SetOffset(off)
+		rng.SetLength(ln)
+		p.SetRange(rng)
+		rc := new(zzCollector)
+		p.SetChunkWriter(rc)
+		err := to.svc.GetRange(ctx, p)
+		if err == nil && len(rc.data) == 0 {
+			// a payload-less OK answer is an empty message stream, which the proxy refuses
+			return io.ErrUnexpectedEOF
+		}
+		return px.finish(ctx, rc, err, func(*object.Object) (uint64, bool) { return 0, false }, false)
+	}
+}
+
+func (px *zzProxy) headFn(addr oid.Address) HeadTransportFunc {
+	return func(ctx context.Context, _ clientcore.MultiAddressClient) (mem.BufferSlice, iprotobuf.BuffersSlice, error) {
+		var none iprotobuf.BuffersSlice
+		to := px.w.proxyTo
+		if err := px.w.reach(ctx, to); err != nil {
+			return nil, none, err
+		}
+		px.w.remoteGet.Add(1)
+		var p HeadPrm
+		p.SetCommonParameters(zzCommon(1, nil))
+		p.WithAddress(addr)
+		p.WithContainer(px.w.cnr)
+		rc := new(zzCollector)
+		p.SetHeaderWriter(rc)
+		if err := to.svc.Head(ctx, p); err != nil {
+			werr := zzWire(ctx, err)
+			var si *object.SplitInfoError
+			switch {
+			case errors.As(werr, &si):
+				return nil, none, werr
+			case errors.Is(werr, apistatus.ErrObjectNotFound):
+				return nil, none, apistatus.ErrObjectNotFound
+			case errors.Is(werr, apistatus.Error):
+				px.status = werr
+				return nil, none, nil
+			}
+			return nil, none, werr
+		}
+		px.headHdr = rc.hdr
+		return nil, none, nil
+	}
+}
+
+// submitHead is the HEAD response forwarding installed together with headFn.
+func (px *zzProxy) submitHead(mem.BufferSlice, iprotobuf.BuffersSlice) {
+	if px.status == nil && px.headHdr != nil {
+		_ = px.col.WriteHeader(px.headHdr)
+	}
 }
 
 func (w *zzWorld) listFor(id oid.ID) []netmap.NodeInfo {
@@ -185,7 +338,7 @@ func zzNewWorld(r *simkit.R, nnodes int, ecRule *iec.Rule, repN uint) *zzWorld {
 	w.cnr.SetBasicACL(acl.PublicRW)
 	w.cnr.SetPlacementPolicy(pp)
 	for i := 0; i < nnodes; i++ {
-		n := &zzNode{idx: i}
+		n := &zzNode{w: w, idx: i}
 		n.pub = []byte(fmt.Sprintf("\x02verif-c23-node-public-key-%06d", i)) // 33 bytes like a compressed key
 		n.info.SetPublicKey(n.pub)
 		n.info.SetNetworkEndpoints(fmt.Sprintf("/dns4/n%d/tcp/8080", i))
@@ -262,6 +415,9 @@ func zzHdr(o *object.Object) *object.Object {
 // reference id as their parent tell about it (split info / EC parts).
 func (l *zzLocal) resolve(id oid.ID) (phys *object.Object, si *object.SplitInfo, ecParts []*object.Object) {
 	if o := l.n.find(id); o != nil {
+		if id == l.n.w.linkID {
+			l.n.w.linkRead.Store(true)
+		}
 		return o, nil, nil
 	}
 	for _, o := range l.n.objs {
@@ -531,6 +687,24 @@ func (c *zzClient) remoteHead(ctx context.Context, exec *execCtx) (*object.Objec
 // done here by calling the remote node's Service.
 func (c *zzClient) getObject(exec *execCtx) (*object.Object, io.ReadCloser, error) {
 	ctx := exec.context()
+	// request proxying of the top-level request (what the object server installs): the
+	// callbacks are the harness's model of pkg/services/object {get,range}.go continueWithConn
+	if exec.headTransportFn != nil {
+		c.w.proxyTo = c.to
+		respBuf, hdr, err := exec.headTransportFn(ctx, nil)
+		if err == nil {
+			exec.submitHeadResponseFn(respBuf, hdr)
+		}
+		return nil, nil, err
+	}
+	if exec.getTransportFn != nil {
+		c.w.proxyTo = c.to
+		return nil, nil, exec.getTransportFn(ctx, nil)
+	}
+	if exec.rangeTransportFn != nil {
+		c.w.proxyTo = c.to
+		return nil, nil, exec.rangeTransportFn(ctx, nil)
+	}
 	if err := c.w.reach(ctx, c.to); err != nil {
 		return nil, nil, err
 	}
@@ -721,8 +895,85 @@ func (s *zzSliceStream) Close() error {
 	return nil
 }
 
-// zzBuildV2 slices the payload with the SDK slicer (first-ID chain + link object with sizes).
+// zzBuildV2 forms the v2 chain (first-ID chain + link object with sizes).  The SDK slicer
+// refuses chains whose link object is bigger than the child limit, so chains of tiny children
+// are formed by zzBuildV2Hand, which repeats the slicer's steps; whenever the slicer accepts
+// the input both are built and must agree object by object.
 func zzBuildV2(w *zzWorld, payload []byte, limit uint64) *zzLayout {
+	hand := zzBuildV2Hand(w, payload, limit)
+	if hand.kind != "v2" || uint64(len(hand.link.Payload())) > limit {
+		return hand
+	}
+	sl := zzBuildV2Slicer(w, payload, limit)
+	if sl.kind != "v2" || len(sl.children) != len(hand.children) || sl.parentID != hand.parentID || sl.link.GetID() != hand.link.GetID() {
+		w.r.Failf("infra", "build", "hand-made v2 chain differs from the slicer's (parent or link)")
+	}
+	for i := range sl.children {
+		if sl.children[i].GetID() != hand.children[i].GetID() {
+			w.r.Failf("infra", "build", "hand-made v2 chain differs from the slicer's at child %d", i)
+		}
+	}
+	return sl
+}
+
+func zzBuildV2Hand(w *zzWorld, payload []byte, limit uint64) *zzLayout {
+	if uint64(len(payload)) <= limit {
+		return zzBuildWhole(w, payload)
+	}
+	signer := zzSigner()
+	parent := w.userHeader()
+	unfinished := parent
+	parent.SetPayloadSize(uint64(len(payload)))
+	parent.SetPayloadChecksum(object.CalculatePayloadChecksum(payload))
+	if err := parent.CalculateAndSetID(); err != nil {
+		w.r.Failf("infra", "build", "parent id: %v", err)
+	}
+	if err := parent.Sign(signer); err != nil {
+		w.r.Failf("infra", "build", "parent signature: %v", err)
+	}
+	l := &zzLayout{kind: "v2", payload: payload, parentID: parent.GetID(), parent: &parent}
+	var measured []object.MeasuredObject
+	var last object.Object
+	for off := uint64(0); off < uint64(len(payload)); off += limit {
+		end := min(off+limit, uint64(len(payload)))
+		c := w.stub()
+		if len(measured) == 0 {
+			c.SetParent(&unfinished)
+		} else {
+			c.SetFirstID(measured[0].ObjectID())
+			c.SetPreviousID(measured[len(measured)-1].ObjectID())
+		}
+		if end == uint64(len(payload)) {
+			c.SetParentID(parent.GetID())
+			c.SetParent(&parent)
+			last = c
+		}
+		c.SetPayload(payload[off:end])
+		c.SetPayloadSize(end - off)
+		if err := c.SetVerificationFields(signer); err != nil {
+			w.r.Failf("infra", "build", "child: %v", err)
+		}
+		var m object.MeasuredObject
+		m.SetObjectID(c.GetID())
+		m.SetObjectSize(uint32(end - off))
+		measured = append(measured, m)
+		l.children = append(l.children, &c)
+	}
+	lk := last
+	lk.SetType(object.TypeLink)
+	lk.ResetPreviousID()
+	var lnk object.Link
+	lnk.SetObjects(measured)
+	lk.SetPayload(lnk.Marshal())
+	lk.SetPayloadSize(uint64(len(lk.Payload())))
+	if err := lk.SetVerificationFields(signer); err != nil {
+		w.r.Failf("infra", "build", "link: %v", err)
+	}
+	l.link = &lk
+	return l
+}
+
+func zzBuildV2Slicer(w *zzWorld, payload []byte, limit uint64) *zzLayout {
 	var opts slicer.Options
 	opts.SetObjectPayloadLimit(limit)
 	opts.SetCurrentNeoFSEpoch(10)
